@@ -31,7 +31,9 @@ RULE = ("(a) every custom validator of pycfmodel, called directly and through it
         "inside invalid modelled resources, huge ints, 100 000-character strings, ...; 1-3 mutations each) + a random JSON stream biased to "
         f"CloudFormation / IAM key names, nesting <= {SAFE_DEPTH}; allowed outcomes: model, ValidationError -- within "
         "wall <= 1 s + 100 us * size and peak-RSS growth <= 96 MB + 2 kB * size (size = nodes + characters).  (c) deep nesting "
-        "(known finding F17), separate stream.  non-trivial = the input is not a valid template (stream b: the mutated template is rejected "
+        "(known finding F17), separate stream.  (d) histories: ONE long-lived worker process parses 60 (quick) / 400 (thorough) small templates "
+        "per kind, each holding 40 strings / keys / numbers / dates / addresses / JSON texts / function objects the process has never seen (8 kinds), in generic, "
+        "typed and metadata positions: the 5000th template of a process must fare like the first.  non-trivial = the input is not a valid template (stream b: the mutated template is rejected "
         "or differs from its seed; stream a: the value is not accepted by the field); distinct by hash of (surface, input).")
 ASSUMPTIONS = [
     "time, memory, process death, the interpreter's recursion limit and pydantic-core's own validators are RUNTIME: observed in the sandbox "
